@@ -196,7 +196,7 @@ func seg(day, nameIdx int, work bool, target int) string {
 	if work {
 		w = "0"
 	}
-	return fmt.Sprintf("%08d%d%s%08d", day, nameIdx, w, target)
+	return fmt.Sprintf("%08d%c%s%08d", day, rune('0'+nameIdx), w, target)
 }
 
 func segRemove(day int) string { return fmt.Sprintf("%08d~000000000", day) }
@@ -283,7 +283,7 @@ func c14Fix(c *ctx) {
 					st := so.NextDay(off)
 					nx := [][]int{}
 					try(func() {
-						for _, n := range []int{-2, -1, 1, 2, 3} {
+						for _, n := range []int{-2, -1, 1, 2, 3, 6, -6, 9} {
 							r := st.Next(n, true)
 							nx = append(nx, []int{n, r.GetYear()*10000 + r.GetMonth()*100 + r.GetDay(), 0})
 						}
@@ -293,9 +293,51 @@ func c14Fix(c *ctx) {
 				c.emit(obj{"ev": "C14Work", "y": d / 10000, "rows": rows})
 			}
 		}
+		if i%6 == 0 {
+			c14NamesEpilogue(c, i, len(parts))
+		}
 	}
 	HolidayUtil.VerifReset()
 	_ = calendar.J2000
+}
+
+// after a replayed sequence: a fix-up that only installs a longer list of names (every built-in name changed, three
+// added), then records that use the added names are added, replaced and removed; the views are read after each
+func c14NamesEpilogue(c *ctx, i, k int) {
+	names := []string{}
+	for _, v := range HolidayUtil.NAMES {
+		names = append(names, v+"·")
+	}
+	names = append(names, "测试节", "泼水节", "三月三")
+	fix := func(nms []string, segs [][]int) {
+		data := ""
+		for _, s := range segs {
+			if s[1] == 1 {
+				data += segRemove(s[0])
+			} else {
+				data += seg(s[0], s[2], s[3] == 1, s[4])
+			}
+		}
+		p, _ := try(func() { HolidayUtil.Fix(nms, data) })
+		after := [][]int{}
+		all := rawRecords()
+		for _, r := range all {
+			if fixYears[r[0]/10000] {
+				after = append(after, r)
+			}
+		}
+		c.emit(obj{"ev": "C14Fix", "seq": i, "k": k, "segs": segs, "p": b2i(p), "after": after, "years": []int{2030, 2031}, "rest": restDigest(fixYears),
+			"total": len(all), "rawlen": len(HolidayUtil.VerifData()), "newnames": b2i(nms != nil)})
+	}
+	by := 2005 + (i*7)%20
+	emitViews(c, []int{by}, nil, false)
+	fix(names, [][]int{})
+	emitViews(c, []int{2030, 2031, by}, nil, false)
+	n1, n2 := 9+i%3, 9+(i+1)%3
+	fix(nil, [][]int{{20310318, 0, n1, 0, 20310319}, {20310319, 0, n1, 0, 20310319}, {20310321, 0, n2, 1, 20310319}})
+	emitViews(c, []int{2031}, []int{20310319}, false)
+	fix(nil, [][]int{{20310318, 0, n2, 1, 20310319}, {20310321, 1, 0, 0, 0}, {20310322, 0, n1, 1, 20310319}})
+	emitViews(c, []int{2031}, []int{20310319}, false)
 }
 
 func init() {
